@@ -25,6 +25,20 @@ def prove(hyps, goal, timeout_ms=10000, want_model=True):
     if r == z3.sat:
         return {"status": "sat", "backend": "z3", "time": dt, "model": s.model() if want_model else None}
     reason = s.reason_unknown()
+    # length relaxation: Length(t) of every sequence term becomes a free non-negative integer. Unsat of the relaxation
+    # implies unsat of the query (it only forgets constraints); a model of it is a *candidate* (lengths only).
+    rel = relaxed_lengths(hyps + [z3.Not(goal)])
+    if rel is not None:
+        s2 = z3.Solver()
+        s2.set("timeout", min(timeout_ms, 5000))
+        for h in rel:
+            s2.add(h)
+        r2 = s2.check()
+        if r2 == z3.unsat:
+            return {"status": "unsat", "backend": "z3-length-relaxation", "time": time.time() - t0}
+        if r2 == z3.sat:
+            return {"status": "unknown", "backend": "z3", "time": time.time() - t0, "reason": f"{reason}; the length-only relaxation is satisfiable (a counter-model would need sequences of these lengths)",
+                    "relaxed_model": str(s2.model())[:600]}
     if USE_CVC5:
         c = cvc5_check(s, timeout_ms)
         if c == "unsat":
@@ -52,3 +66,33 @@ def cvc5_check(solver, timeout_ms):
             os.unlink(path)
     except Exception:
         return "unknown"
+
+
+def relaxed_lengths(formulas):
+    """Replace every seq.len/str.len application by a fresh non-negative Int constant; None if there is none."""
+    cache = {}
+    extra = []
+
+    def walk(e):
+        k = e.get_id()
+        if k in cache:
+            return cache[k]
+        if z3.is_app(e):
+            if e.decl().kind() == z3.Z3_OP_SEQ_LENGTH:
+                v = z3.Int(f"len!{len(extra)}")
+                extra.append(v >= 0)
+                cache[k] = v
+                return v
+            ch = [walk(c) for c in e.children()]
+            r = e.decl()(*ch) if ch else e
+        else:
+            r = e
+        cache[k] = r
+        return r
+    try:
+        out = [walk(f) for f in formulas]
+    except Exception:
+        return None
+    if not extra:
+        return None
+    return out + extra
